@@ -137,6 +137,12 @@ def all_keys():
             ("online_filter", "deform min", "number"),
             ("online_filter", "deform max", "number"),
             ("online_filter", "fl1_max soft limit", "fbool"),
+            # features that exist by a naming rule, not by a list
+            ("online_filter", "ml_score_abc min", "number"),
+            ("online_filter", "ml_score_abc soft limit", "fbool"),
+            ("online_filter", "ml_score_abc,deform polygon points",
+             "f2dfloatarray"),
+            ("filtering", "ml_score_xyz max", "number"),
             ("filtering", "deform min", "number"),
             ("filtering", "area_um max", "number"),
             ("user", "my key", "user"), ("user", "Other Key 2", "user")]
